@@ -85,20 +85,33 @@ func TestVerifC07RegistryHandshakeWindow(t *testing.T) {
 		}
 		// the eviction, while handleHandshake(c1) sits between response and index update
 		w.conc = true // no bookkeeping reads of registry state while the handshake is in flight
-		switch v {
-		case "cap-eviction", "cap-eviction-rehandshake":
-			w.apply(c07Op{"fail", 2, -1})
-		case "duplicate-login":
-			w.apply(c07Op{"login", 1, A})
-		case "sweep":
-			w.apply(c07Op{"sweep", -1, -1})
+		outcome, evDone, _ := c07RunParked(func() {
+			switch v {
+			case "cap-eviction", "cap-eviction-rehandshake":
+				w.apply(c07Op{"fail", 2, -1})
+			case "duplicate-login":
+				w.apply(c07Op{"login", 1, A})
+			case "sweep":
+				w.apply(c07Op{"sweep", -1, -1})
+			}
+		}, func() string { return fmt.Sprint(g.inWrite.Load(), c1.srv.IsClosed()) })
+		if outcome != "returned" {
+			// the eviction waits for c1's write to finish (the gate models a slow write, not a dead
+			// peer): open the gate and let both run to their end; judged at quiescence as usual
+			run.Count("eviction_waited_for_gated_write", 1)
 		}
-		w.conc = false
 		evicted := c1.srv.IsClosed()
 		if evicted {
 			run.Count("evicted_inside_window", 1)
 		}
 		close(g.release)
+		select {
+		case <-evDone:
+		case <-time.After(20 * time.Second):
+			run.Count("watchdog_eviction", 1)
+			continue
+		}
+		w.conc = false
 		select {
 		case <-done:
 		case <-time.After(20 * time.Second):
